@@ -184,6 +184,16 @@ def codec_contract_obs(prefix, node):
     return obs
 
 
+def strict_eq(a, b):
+    """structural equality of two concrete stanzas (tag, attributes, data, children pairwise in order).  The library's own
+    ProtocolTreeNode.__eq__ is weaker: its `found` flag is never reset, so after one matching child all others count as matching."""
+    if a is None or b is None:
+        return a is b
+    if a.tag != b.tag or dict(a.attributes) != dict(b.attributes) or a.data != b.data or len(a.children) != len(b.children):
+        return False
+    return all(strict_eq(x, y) for x, y in zip(a.children, b.children))
+
+
 def real_codec_roundtrip_obs(prefix, node):
     """concrete mode only: push the stanza through the real encoder and decoder"""
     from yowsup.layers.coder.encoder import WriteEncoder
@@ -194,4 +204,4 @@ def real_codec_roundtrip_obs(prefix, node):
         out = ReadDecoder(td).getProtocolTreeNode(bytearray(WriteEncoder(td).protocolTreeNodeToBytes(node)))
     except Exception as e:
         return [(prefix + ":codec-accepts (%s: %s)" % (type(e).__name__, str(e)[:80]), False)]
-    return [(prefix + ":codec-roundtrip", out == node)]
+    return [(prefix + ":codec-roundtrip", strict_eq(out, node))]
